@@ -86,8 +86,13 @@ func c04R1(c *Ctx) {
 					}
 				}
 			}
+			onConn := ci.Common().IsInvoke() && g.conn != nil && stripIface(unwrapLoad(ci.Common().Value)) == g.conn
 			for _, n := range names {
 				inGet := fn == g.fn
+				if inGet && onConn && (n == "(net.Conn).Write" || n == "(io.Writer).Write" || n == "invoke -> (*crypto/tls.Conn).Write" || n == "(net.Conn).Close" || n == "(net.Conn).SetDeadline") {
+					c.ok(FuncName(fn)+"/net-call:"+n, P.InstrPos(in), FuncName(fn), "the connection of this frame, used through an interface")
+					continue
+				}
 				c.check(inGet && allowed[n], FuncName(fn)+"/net-call:"+n, P.InstrPos(in), FuncName(fn),
 					"network primitive used inside jtp.Get as part of the single request",
 					"network primitive "+n+" used outside the single request path of jtp.Get")
@@ -156,10 +161,17 @@ func c04R2(c *Ctx) {
 	g := analyseGet(P)
 	fname := FuncName(g.fn)
 	var write *ssa.Call
+	var writeArg ssa.Value
 	eachInstr(g.fn, func(_ *ssa.BasicBlock, _ int, in ssa.Instruction) {
 		if call, ok := in.(*ssa.Call); ok {
 			if f := calleeObj(&call.Call); f != nil && f.Name() == "Write" && len(call.Call.Args) == 2 && call.Call.Args[0] == g.conn {
 				write = call
+				writeArg = call.Call.Args[1]
+			}
+			// the same Write through an interface the connection was put into (a helper taking net.Conn / io.Writer)
+			if call.Call.IsInvoke() && call.Call.Method.Name() == "Write" && len(call.Call.Args) == 1 && stripIface(unwrapLoad(call.Call.Value)) == g.conn {
+				write = call
+				writeArg = call.Call.Args[0]
 			}
 		}
 	})
@@ -167,7 +179,7 @@ func c04R2(c *Ctx) {
 		c.bad(fname+"/request", P.Pos(g.fn.Pos()), fname, "no request write found on the connection")
 		return
 	}
-	arg := write.Call.Args[1]
+	arg := writeArg
 	if cv, ok := arg.(*ssa.Convert); ok {
 		arg = cv.X
 	}
